@@ -163,6 +163,12 @@ def run_session(p, inp, start, ops, meta):
             elif name == 'eof':
                 c = ip.as_mutable() if is_imm(ip) else ip.copy()
                 log.append(['eof', canon(c.feed_eof(), meta)])
+            elif name == 'alias':
+                # the deprecated name of lexer_thread (still part of the session API; it warns)
+                import warnings as _w
+                with _w.catch_warnings():
+                    _w.simplefilter('ignore')
+                    log.append(['alias', type(ip.lexer_state).__name__])
             elif name == 'pos':
                 st = ip.lexer_thread.state
                 log.append(['pos', st.line_ctr.char_pos, st.line_ctr.line, st.line_ctr.column, canon(st.last_token, False) if st.last_token is not None else None])
@@ -313,7 +319,11 @@ def node(job):
                         beh(q, e, probes, _lark_ns())
                     for key, comp in (('sa', False), ('sac', True)):
                         s = io.StringIO()
+                        opts_before = dict(q.options.options)
                         gen_standalone(q, out=s, compress=comp)
+                        if dict(q.options.options) != opts_before:
+                            raise RuntimeError('gen_standalone() changed the options of the instance it was given: %s' %
+                                               sorted(set(opts_before) ^ set(q.options.options)))
                         with open(P[key], 'w') as f:
                             f.write(s.getvalue())
                 if st.get('cli'):
